@@ -228,7 +228,13 @@ def run_case(case: dict) -> dict:
             violations.append({"key": f"uncrashed-session/{key}", "msg": f"{fmt} {shape}: {msg}"})
         points, _ = crash_points(ref_log, str(ref_root))
         # the multi-process case: counters are per process, keep it to the parent's calls
+        import time
+        budget_end = time.monotonic() + (600.0 if case["all_torn"] else 240.0)
         for index, point in enumerate(points):
+            if time.monotonic() > budget_end:
+                # per-case time budget: what was visited is what is reported
+                obs["crash_points_skipped_time_budget"] += 1
+                continue
             # Killing on entry to a call yields the state after all *earlier* effects.  If the previous traced
             # call changed nothing on disk (read-only open, close) this state was already audited: the quick
             # tier skips such duplicates, the thorough tier visits every point.
@@ -305,7 +311,7 @@ def run_case(case: dict) -> dict:
                 cuts = sorted({1, written // 2, written - 1})
             original = target.read_bytes()
             for cut in cuts:
-                if not 0 < cut < written:
+                if not 0 < cut < written or time.monotonic() > budget_end:
                     continue
                 target.write_bytes(original[:size_before + cut])
                 problems = audit_state(state, committed_ids, attempted)
